@@ -788,6 +788,30 @@ def rate_divided_by_norm(b, d, norm_bbs):
     return False
 
 
+def rule_sampled_every_update(ctx, crate, rule="R-EST-SAMPLED-EVERY-UPDATE"):
+    """"For steady progress the reported rate equals the true rate no matter how often or how irregularly updates arrive": the
+    estimator is fed on *every* pass through the shared update path - the `record` call is not control-dependent on anything
+    (the draw target being hidden, the limiter, the status): per_sec()/eta()/duration() are public getters and read the
+    estimator whether or not anything is painted (seed C09k: no samples for hidden bars). The sampled value is the position atomic."""
+    cfg = crate.config
+    n = 0
+    for b in K.lib_bodies(crate):
+        if b.name.startswith("state::Estimator::"):
+            continue
+        for c in b.calls(r"state::Estimator::record"):
+            n += 1
+            rets = b.return_blocks()
+            ok = bool(rets) and all(b.dominates(c.bb, r) for r in rets)
+            ctx.check(ok, rule, "unconditional:%s" % K.meth(K.owner_fn(crate, b)), b.name, c.loc(),
+                      "every pass through %s records a sample" % K.meth(b.name),
+                      "%s can return without recording a sample: the estimator is fed only under a condition (a hidden target, a refused draw, ..), so the rate read "
+                      "through per_sec()/eta()/duration() is 0 or stale although the bar progresses steadily" % K.meth(b.name), cfg)
+            sl = b.slice_args(c, [1])
+            ctx.check(sl.has_call(r"portable_atomic::AtomicU64::load") or sl.has_call(r"state::ProgressState::pos"), rule, "samples-position:%s" % K.meth(K.owner_fn(crate, b)), b.name, c.loc(),
+                      "the sample is the current position", "the recorded sample is not the shared position", cfg)
+    ctx.floor(rule, n, 1, cfg, "callers of Estimator::record")
+
+
 def run(ctx, crate):
     adt = crate.adts.get(EST)
     EST_FIELDS[:] = [f["name"] for f in adt["variants"][0]["fields"]] if adt else []
@@ -799,5 +823,6 @@ def run(ctx, crate):
     rule_est_reset_total(ctx, crate)
     rule_reset_triggers(ctx, crate)
     rule_record_guard(ctx, crate)
+    rule_sampled_every_update(ctx, crate)
     rule_time_weighted(ctx, crate)
     Lg.run_ledger(ctx, crate, "C09", "R-EST-TOTAL", ENTRIES, floor_edges=1)
